@@ -104,6 +104,70 @@ def evaluate(run, lines, meta, exe, drv):
             if md is None or show(canon(parse(md))) != show(canon(dec)):
                 run.disagree('decode', case, show(dec)[:400], (md or 'none')[:400])
 
+def spoil(t):
+    """a value of the same outer shape whose encoding fails AFTER part of it has been written (None if the shape has no such variant)"""
+    if tag(t) == 'record' and len(t) > 2:
+        return t[:-1]                                    # the last field is missing: the earlier ones are encoded first
+    if tag(t) == 'array' and len(t) > 1:
+        return t + [['union', '99', ['null']]]           # a last item of the wrong kind
+    if tag(t) == 'map' and len(t) > 1:
+        return t + [['kv', '#7a7a7a', ['union', '99', ['null']]]]
+    return None
+
+def sequences(run, tier, seed, exe, drv):
+    """one writer object, several values: a value that fails part-way (validation off) or is rejected (validation on) must
+    leave nothing behind - every value written afterwards has the bytes a fresh writer gives it"""
+    rng = Rng(seed + 31)
+    n = 120 if tier == 'quick' else 3000
+    lines, meta = [], {}
+    for i in range(n):
+        r = rng.fork(i)
+        node, _ = gen_case_schema(r, max_depth=r.choice([1, 2, 2]))
+        if node.kind != 'record':
+            continue            # (a value of the wrong kind handed to a non-validating writer may panic: not this property's business)
+        st = schema_text(node)
+        good = [parse(node.gen(r, 0)) for _ in range(3)]
+        bad = spoil(parse(node.gen(r, 0)))
+        if bad is None:
+            continue
+        for validate in (0, 1):
+            seq = [good[0], bad, good[1], (['union', '99', ['null']] if validate else bad), good[2]]
+            cid = 'q%d_%d' % (i, validate)
+            lines.append('%s (datum-seq %s %d %s)' % (cid, hx(st), validate, ' '.join(show(x) for x in seq)))
+            meta[cid] = (st, validate)
+    out = fw.run_lines(exe, lines)
+    ml, want = [], {}
+    for cid, (st, validate) in meta.items():
+        o = parse(out.get(cid, '(missing)'))
+        if tag(o) in ('schema-err', 'writer-err'):
+            continue
+        case = {'schema': st, 'validate': validate, 'sequence': 'good, spoiled, good, rejected, good'}
+        if tag(o) != 'obs' or len(o) != 7:
+            run.fail('impl-' + str(tag(o)), 'sequence outcome %s' % show(o)[:120], case)
+            continue
+        for j in (0, 2, 4):
+            ml.append('%s_%d (encode %s %s)' % (cid, j, show(o[1]), show(o[2 + j][1])))
+        want[cid] = (o, case)
+    model = fw.run_lines(drv, ml)
+    for cid, (o, case) in want.items():
+        run.evaluations += 1
+        kinds = [tag(x) for x in o[2:]]
+        run.count('sequence:' + '-'.join(kinds))
+        if kinds[1] != 'err' or kinds[3] != 'err':
+            run.count('sequence-spoiled-value-accepted')       # the spoiled shape happened to be encodable: nothing to conclude
+            continue
+        bad = False
+        for j in (0, 2, 4):
+            m = parse(model.get('%s_%d' % (cid, j), '(missing)'))
+            if tag(o[2 + j]) != 'ok':
+                run.fail('encode-fails', 'value %d of the sequence (conforming) is not written by a writer that saw a failure before' % j, case); bad = True
+                break
+            if tag(m) == 'ok' and m[1] != o[2 + j][2]:
+                run.fail('writer-state-leaks', 'value %d written after a failed write has bytes %s, a fresh writer gives %s' % (j, o[2 + j][2][:80], m[1][:80]), case); bad = True
+                break
+        if not bad:
+            run.nontrivial_case('seq' + cid)
+
 def search(run_):
     """a proof or the correspondence broke: widen the exploration looking for a failing input"""
     exe = fw.build_harness()
@@ -122,6 +186,7 @@ def run(tier, seed):
     for k, v in kinds.items():
         run_.count('schema-node:' + k, v)
     evaluate(run_, lines, meta, exe, drv)
+    sequences(run_, tier, seed, exe, drv)
     return fw.finish(run_, 'theorems C01_* over Model.Codec + differential correspondence', RULE, search)
 
 def replay(rp):
